@@ -39,6 +39,10 @@ pub struct Scenario {
     pub junk_symbols: u32,
     pub collect_between: bool,
     pub keep_neighbour_alive: bool,
+    /// when set, `parts` are the sources of modules m0..m(n-1) and m<entry> is loaded, linked and
+    /// evaluated through the simulated loader instead of evaluating the parts as scripts
+    #[serde(default)]
+    pub module_entry: Option<usize>,
 }
 
 pub const SABOTAGE: &[&str] = &[
@@ -124,6 +128,28 @@ fn census_in_context(ctx: &mut Context, host: &Host, whom: &str, problems: &mut 
 }
 
 pub fn generate(rng: &mut Rng, tier: Tier) -> Value {
+    if rng.chance(1, 8) {
+        // a module graph with top-level await and cycles: module records are address-keyed in several
+        // engine tables, the order in which modules run must not depend on where they were allocated
+        let c = crate::props::c17::corpus();
+        let (name, mods, entry, _, _) = &c[rng.idx(c.len())];
+        let parts: Vec<String> = mods.iter().enumerate().map(|(i, m)| crate::props::c17::render(i, m)).collect();
+        let nn = rng.range(1, 4) as usize;
+        let sc = Scenario {
+            kind: "replica".into(),
+            name: format!("replica:module-{name}"),
+            parts,
+            neighbour: (0..nn).map(|_| (*rng.pick(SABOTAGE)).to_string()).collect(),
+            budget: 0,
+            decisions: vec![],
+            junk_allocs: rng.below(3000) as u32,
+            junk_symbols: rng.below(300) as u32,
+            collect_between: rng.chance(1, 2),
+            keep_neighbour_alive: rng.chance(1, 2),
+            module_entry: Some(*entry),
+        };
+        return serde_json::to_value(sc).expect("ser");
+    }
     let kind = *rng.pick(&["replica", "replica", "contexts", "contexts", "realms"]);
     let n = rng.range(1, if tier == Tier::Quick { 3 } else { 5 }) as usize;
     let (parts, names) = if rng.chance(1, 4) {
@@ -159,6 +185,7 @@ pub fn generate(rng: &mut Rng, tier: Tier) -> Value {
         junk_symbols: rng.below(300) as u32,
         collect_between: rng.chance(1, 2),
         keep_neighbour_alive: rng.chance(1, 2),
+        module_entry: None,
     };
     serde_json::to_value(sc).expect("ser")
 }
@@ -171,6 +198,30 @@ fn limits(ctx: &mut Context) {
 
 /// Runs the observed program alone. Returns the event log.
 fn run_solo(sc: &Scenario, problems: &mut Vec<String>) -> Vec<String> {
+    if let Some(entry) = sc.module_entry {
+        use crate::seams::{LoadPlan, SimLoader};
+        let loader = std::rc::Rc::new(SimLoader::default());
+        for (i, src) in sc.parts.iter().enumerate() {
+            loader.sources.borrow_mut().insert(format!("m{i}"), src.clone());
+            loader.plans.borrow_mut().insert(format!("m{i}"), LoadPlan { latency: (i % 3) as u32, fault: 0, fault_times: 0 });
+        }
+        let (mut ctx, host) = js::new_context::<boa_engine::job::SimpleJobExecutor, SimLoader>(None, Some(loader.clone()));
+        limits(&mut ctx);
+        census_in_context(&mut ctx, &host, "fresh context", problems);
+        let mut log = vec![];
+        match loader.get_or_parse(&format!("m{entry}"), &mut ctx) {
+            Err(e) => log.push(format!("parse {}", js::error_string(&e, &mut ctx))),
+            Ok(m) => {
+                let p = m.load_link_evaluate(&mut ctx);
+                if let Err(e) = ctx.run_jobs() {
+                    log.push(format!("jobs:{}", js::error_string(&e, &mut ctx)));
+                }
+                log.push(format!("state {:?}", std::mem::discriminant(&p.state())));
+            }
+        }
+        log.extend(host.trace.take());
+        return log;
+    }
     let (mut ctx, host) = js::new_default_context();
     limits(&mut ctx);
     census_in_context(&mut ctx, &host, "fresh context", problems);
@@ -504,7 +555,7 @@ pub fn shrink(v: &Value) -> Vec<Value> {
     let sc: Scenario = serde_json::from_value(v.clone()).expect("scenario");
     let mut out = vec![];
     for i in 0..sc.parts.len() {
-        if sc.parts.len() > 1 {
+        if sc.parts.len() > 1 && sc.module_entry.is_none() {
             let mut s = sc.clone();
             s.parts.remove(i);
             out.push(s);
@@ -551,7 +602,7 @@ pub const PROP: Prop = Prop {
     generate,
     execute,
     shrink,
-    rule: "one run = one of three scenario kinds: replica (program = 1..3 kernels biased to the six determinism kernels — key enumeration, Map/Set order, sort stability, error and function texts, identity, number formatting — or a harvested test group; run in a fresh context, then again after a seeded prior history of the thread: 1..4 sabotage programs in another context kept or dropped, 0..3000 junk allocations, 0..300 symbols, optional collection), contexts (the program's host entries and, with a budget of 1..256, its yield points interleaved by a seeded decision vector with 1..4 of 16 sabotage programs running in a neighbour context; oracle = the program alone in the same mode) and realms (two realms of one context, realm 2 sabotaging itself between realm 1's entries, plus hand-over of an array, function, error, class instance, promise and registered symbol from realm 1 to realm 2 with host-side identity checks against realm.intrinsics()); a 2 % sample of runs is re-executed in other processes and any difference is this property's violation; non-trivial = a neighbour entry, yield slice, sabotage or junk history fired; distinct = distinct (scenario kind, program, decision vector, budget, junk size)",
+    rule: "one run = one of three scenario kinds: replica (program = 1..3 kernels biased to the six determinism kernels — key enumeration, Map/Set order, sort stability, error and function texts, identity, number formatting — or a harvested test group, or — 1 run in 8 — one of C17's committed module graphs with top-level await loaded through the simulated loader; run in a fresh context, then again after a seeded prior history of the thread: 1..4 sabotage programs in another context kept or dropped, 0..3000 junk allocations, 0..300 symbols, optional collection), contexts (the program's host entries and, with a budget of 1..256, its yield points interleaved by a seeded decision vector with 1..4 of 16 sabotage programs running in a neighbour context; oracle = the program alone in the same mode) and realms (two realms of one context, realm 2 sabotaging itself between realm 1's entries, plus hand-over of an array, function, error, class instance, promise and registered symbol from realm 1 to realm 2 with host-side identity checks against realm.intrinsics()); a 2 % sample of runs is re-executed in other processes and any difference is this property's violation; non-trivial = a neighbour entry, yield slice, sabotage or junk history fired; distinct = distinct (scenario kind, program, decision vector, budget, junk size)",
     real: &["lexer/parser/compiler/VM/builtins", "Context, Realm, intrinsics, shapes", "boa_gc (shipped trigger)", "SimpleJobExecutor"],
     stub: &["SimClock (fixed)", "SimHooks (fixed time zone)", "print native"],
     assumptions: &[
